@@ -26,6 +26,8 @@ type GenerateSettings struct {
 	typeUnmarshallers map[string]string
 	typeLengthers     map[string]string
 	customRecordTypes map[string]struct{}
+	// possiblyEmptyTypes are the struct types whose encoding can be zero bytes long
+	possiblyEmptyTypes map[string]struct{}
 
 	ImportGenerationMode
 	imported          []File
@@ -402,6 +404,7 @@ func (f File) Generate(inputWriter io.Writer, settings GenerateSettings) error {
 	settings.typeUnmarshallers = f.typeUnmarshallers(settings)
 	settings.typeLengthers = f.typeLengthers()
 	settings.customRecordTypes = f.customRecordTypes()
+	settings.possiblyEmptyTypes = f.possiblyEmptyTypes()
 
 	usedTypes := f.usedTypes()
 	if settings.PackageName == "" && f.GoPackage != "" {
@@ -634,8 +637,8 @@ func writeFieldReadByter(name string, typ FieldType, w *iohelp.ErrorWriter, sett
 			// validate the count against the remaining input before allocating for it
 			if sz, ok := fixedSizeTypes[typ.Array.Simple]; ok {
 				writeLengthCheck(w, "4+int(iohelp.ReadUint32Bytes(buf[at:]))*"+strconv.Itoa(int(sz)), depth)
-			} else if _, isRecord := settings.customRecordTypes[typ.Array.Simple]; !isRecord {
-				// strings, enums, nested arrays and maps all occupy at least one byte each
+			} else if _, maybeEmpty := settings.possiblyEmptyTypes[typ.Array.Simple]; !maybeEmpty {
+				// everything but a struct made of nothing occupies at least one byte per element
 				writeLengthCheck(w, "4+int(iohelp.ReadUint32Bytes(buf[at:]))", depth)
 			}
 		}
